@@ -87,7 +87,16 @@ def _print_Piecewise(
         else:
             return printer._print(cond)
 
-    expr = sympy.simplify(expr)
+    simplified = sympy.simplify(expr)
+    if (
+        isinstance(simplified, sympy.Piecewise)
+        and len(simplified.args) > 0
+        and simplified.args[-1].cond == True  # noqa: E712
+    ):
+        # Only use the simplified expression if it still is a Piecewise with a default
+        # branch. If the conditional simplifies away (e.g both branches are equal) we
+        # print it as it was written
+        expr = simplified
 
     exprs = [printer._print(arg.expr) for arg in expr.args]
     conds = [print_cond(arg.cond) for arg in expr.args]
